@@ -19,6 +19,11 @@ def dataBytes (D : Deps) (gs : List (List (List PageRec))) : Bytes := (gs.map (g
 def sumRows (ps : List PageRec) : Nat := (ps.map (·.rows)).sum
 def sumBody (ps : List PageRec) : Nat := (ps.map (·.body.length)).sum
 
+/-- Σ (header + uncompressed body): `total_uncompressed_size` of a chunk as the format defines it -/
+def sumUsize (D : Deps) (ps : List PageRec) : Nat := (ps.map (PageRec.usize D)).sum
+
+theorem PageRec.bytes_eq (D : Deps) (r : PageRec) : r.bytes D = r.header D ++ r.comp := rfl
+
 /-- a page record is what `carquet_page_writer_finalize` does: the stored body is the
 compression of the uncompressed body, and the page is not empty -/
 def PageOk (D : Deps) (codec : Nat) (r : PageRec) : Prop :=
@@ -27,7 +32,7 @@ def PageOk (D : Deps) (codec : Nat) (r : PageRec) : Prop :=
 /-- the metadata of a chunk are the sums over its pages -/
 def ChunkPages (D : Deps) (codec : Nat) (m : ChunkMeta) (ps : List PageRec) : Prop :=
   m.numValues = sumRows ps ∧ m.totalCompressed = (pagesBytes D ps).length ∧
-  m.totalUncompressed = sumBody ps ∧ m.codec = codec ∧ ∀ r ∈ ps, PageOk D codec r
+  m.totalUncompressed = sumUsize D ps ∧ m.codec = codec ∧ ∀ r ∈ ps, PageOk D codec r
 
 def AllChunks (D : Deps) (codec : Nat) : List ChunkMeta → List (List PageRec) → Prop
   | [], [] => True
@@ -63,12 +68,12 @@ theorem allGroups_nil_right (D : Deps) (codec : Nat) (ps : List (List (List Page
 
 /-- invariant of a column writer -/
 def ColInv (D : Deps) (codec : Nat) (cw : ColW) : Prop :=
-  cw.buffer = pagesBytes D cw.pages ∧ cw.totalUncompressed = sumBody cw.pages ∧
+  cw.buffer = pagesBytes D cw.pages ∧ cw.totalUncompressed = sumUsize D cw.pages ∧
   cw.totalValues = sumRows cw.pages + cw.page.numValues ∧ cw.numPages = cw.pages.length ∧
   ∀ r ∈ cw.pages, PageOk D codec r
 
 theorem colInv_empty (D : Deps) (codec : Nat) : ColInv D codec {} := by
-  simp [ColInv, pagesBytes, sumBody, sumRows]
+  simp [ColInv, pagesBytes, sumUsize, sumRows]
 
 theorem pagesBytes_append (D : Deps) (ps : List PageRec) (r : PageRec) :
     pagesBytes D (ps ++ [r]) = pagesBytes D ps ++ r.bytes D := by
@@ -91,7 +96,10 @@ theorem flushPage_colInv (D : Deps) (codec : Nat) (c : Col) (cw cw' : ColW) (h :
       refine ⟨⟨?_, ?_, ?_, ?_, ?_⟩, rfl⟩
       · simp only [pagesBytes_append, h1]
         simp [PageRec.bytes, pageRecOf, hc]
-      · simp [sumBody, pageRecOf, h2] at *
+      · simp only [sumUsize, List.map_append, List.sum_append, List.map_cons, List.map_nil, List.sum_cons,
+          List.sum_nil, Nat.add_zero, PageRec.usize, PageRec.header, pageRecOf, hc, Option.getD_some,
+          List.length_append] at h2 ⊢
+        rw [h2]; omega
       · simp [sumRows, pageRecOf, h3] at *
       · simp [h4]
       · intro r hr
